@@ -421,12 +421,12 @@ func c05EntryText(r *vfRand, e c05E) string {
 func c05Boundary(r *vfRand, e c05E) []c05A {
 	m := e.a.mask(e.l)
 	out := []c05A{
-		e.a.randHost(r, e.l),  // inside
-		e.a.flip(e.l - 1),     // last prefix bit flipped: outside (when l > 0)
-		e.a.flip(e.l),         // first host bit flipped: inside (when l < bits)
-		m,                     // first address of the range
-		e.a.hostOnes(e.l),     // last address of the range
-		m.add(-1),             // just below
+		e.a.randHost(r, e.l),     // inside
+		e.a.flip(e.l - 1),        // last prefix bit flipped: outside (when l > 0)
+		e.a.flip(e.l),            // first host bit flipped: inside (when l < bits)
+		m,                        // first address of the range
+		e.a.hostOnes(e.l),        // last address of the range
+		m.add(-1),                // just below
 		e.a.hostOnes(e.l).add(1), // just above
 	}
 	if e.l > 1 {
